@@ -2,6 +2,6 @@ SPECIFICATION LSpec
 CONSTANTS Addrs = {} Keys = {} Signers = {"S1", "S2"} OwnSigner = "S1" MaxVer = 2 Datas = {"a", "b"} UData = {"a", "b"}
           Forged = TRUE Sizes = FALSE Multi = FALSE Base = 2 Scale = 1 MaxRot = 0 MaxClock = 0 InitCloser = 7 MaxCloser = 7
           MaxIssued = 0 PeerStore = FALSE Locals = FALSE EqReplaces = TRUE OtherTokens = {} MaxStored = 8
-          KeepSecrets = 2 CleanAll = TRUE MaxSeen = 3
+          KeepSecrets = 2 CleanAll = TRUE Validity = 0 RotatePeriod = 0 ExpiredYields = FALSE MaxSeen = 3
 INVARIANT RefSound
 INVARIANT RefComplete
